@@ -1628,29 +1628,6 @@ Proof.
   - apply Z.ltb_lt in H1. rewrite H1. apply orb_true_r.
 Qed.
 
-Lemma c03_run ops : forall s dead i, forallb op_wf ops = true -> Inv3 s ->
-  all_ok (c03_from i ops (map sobs_of (run_from s dead ops))) = true.
-Proof.
-  induction ops as [|o ops IH]; intros s dead i Hwf HI; [reflexivity|].
-  cbn [forallb] in Hwf. apply andb_true_iff in Hwf as [Hw Hws].
-  cbn [run_from]. destruct dead.
-  - cbn [map c03_from all_ok forallb snd]. rewrite c03_obs_ok by exact HI. apply IH; auto.
-  - destruct (handle s o) as [s' r] eqn:Eh. cbn [map c03_from all_ok forallb snd].
-    pose proof (handle_inv3 _ _ _ _ Hw HI Eh) as HI'. rewrite c03_obs_ok by exact HI'. apply IH; auto.
-Qed.
-
-Theorem c03_model sd ops : forallb op_wf ops = true -> all_ok (c03 ops (srun sd ops)) = true.
-Proof. intros H. unfold c03, srun. apply c03_run; [exact H|apply init_inv3]. Qed.
-
-Theorem c03_bridge cfg ops : case_wf cfg ops = true ->
-  exists obs, run cfg ops = Some obs /\ holds_C03 ops obs = true.
-Proof.
-  unfold case_wf, run, holds_C03, clauses_C03, clauses_of.
-  destruct (cfg_side cfg) as [sd|]; [|discriminate].
-  destruct (dec_ops ops) as [os|]; [|discriminate]. intros Hwf.
-  eexists; split; [reflexivity|]. rewrite dec_enc_all. apply c03_model, Hwf.
-Qed.
-
 (* reachable states *)
 Fixpoint final (s : state) (dead : bool) (ops : list op) : state :=
   match ops with
@@ -1709,3 +1686,403 @@ Proof.
   - destruct (strQuota _ _ <=? 0); cbn; [left; reflexivity|right; left; reflexivity].
   - unfold cleanup. cbn [estd set_estd act]. destruct (aget id _); cbn; [right; right; reflexivity|left; reflexivity].
 Qed.
+
+(* ---------- head-of-queue invariant: a non-empty stream starts with a data item ---------- *)
+Definition HD (str : stream) : Prop :=
+  (st str = ST_EMPTY -> itl str = []) /\
+  (st str <> ST_EMPTY -> exists h d es tl, itl str = IData h d es :: tl).
+Definition HDs (s : state) : Prop := Forall (fun p => HD (snd p)) (estd s).
+
+Lemma forall_get {A} (Q : A -> Prop) (l : list (Z * A)) id v :
+  Forall (fun p => Q (snd p)) l -> aget id l = Some v -> Q v.
+Proof.
+  induction 1 as [|[k x] r Hx Hr IH]; cbn; [discriminate|].
+  destruct (k =? id); [intros H; inversion H; subst; exact Hx|exact IH].
+Qed.
+
+Lemma cleanup_hd s id rst s1 fr err : HDs s -> cleanup s id rst = (s1, fr, err) -> HDs s1.
+Proof.
+  unfold HDs, cleanup. intros H E. inversion E; subst; clear E.
+  destruct (aget id (estd s)); [cbn; apply forall_adel, H|exact H].
+Qed.
+
+Lemma activate_hd s k : HDs s -> HDs (activate s k).
+Proof.
+  unfold HDs, activate. intros H. destruct (aget k (estd s)) as [x|] eqn:E; [|exact H].
+  destruct (Z.eqb_spec (st x) ST_WAITING) as [Ew|]; [|exact H]. cbn.
+  apply forall_aupd; [exact H|]. intros v Hv [H1 H2]. rewrite E in Hv; inversion Hv; subst v.
+  split; cbn; [discriminate|]. intros _. apply H2. rewrite Ew. discriminate.
+Qed.
+Lemma fold_activate_hd l : forall s, HDs s -> HDs (fold_left activate l s).
+Proof. induction l as [|k l IH]; intros s H; cbn; [exact H|]. apply IH, activate_hd, H. Qed.
+
+Lemma hd_new : HD new_stream.
+Proof. split; cbn; [reflexivity|]. intros H; exfalso; apply H; reflexivity. Qed.
+
+Lemma processData_hd s s' r : HDs s -> processData s = (s', r) -> HDs s'.
+Proof.
+  unfold HDs. intros H E. unfold processData in E.
+  destruct (sq s =? 0); [inversion E; subst; exact H|].
+  destruct (act s) as [|id rest]; [inversion E; subst; exact H|]. cbn [estd set_act] in E.
+  destruct (aget id (estd s)) as [str|] eqn:Eg; [|inversion E; subst; exact H].
+  pose proof (forall_get HD _ _ _ H Eg) as [Hd1 Hd2].
+  destruct (itl str) as [|[h d es|L rst] tl] eqn:Eitl; try (inversion E; subst; exact H).
+  assert (Hne : st str <> ST_EMPTY) by (intros X; apply Hd1 in X; discriminate).
+  destruct ((strQuota _ (bos str) <=? 0) && negb ((h =? 0) && (d =? 0))).
+  { inversion E; subst; clear E. cbn. apply forall_aupd; [exact H|]. intros v Hv _.
+    rewrite Eg in Hv; inversion Hv; subst v. split; cbn; [discriminate|]. intros _. rewrite Eitl. eauto. }
+  destruct (afterWrite _ _ _) as [[s2 fr2] err2] eqn:Eaw. inversion E; subst; clear E.
+  unfold afterWrite in Eaw. cbn [itl bos st] in Eaw.
+  match type of Eaw with context [if ?c then tl else ?x :: tl] => set (c0 := c) in *; set (x0 := x) in * end.
+  destruct (if c0 then tl else x0 :: tl) as [|[h' d' es'|L' rst'] tl'] eqn:Enew.
+  - inversion Eaw; subst; clear Eaw. cbn. apply forall_aupd; [exact H|]. intros _ _ _.
+    split; cbn; [reflexivity|]. intros X; exfalso; apply X; reflexivity.
+  - destruct (strQuota _ _ <=? 0); inversion Eaw; subst; clear Eaw; cbn; (apply forall_aupd; [exact H|]); intros _ _ _;
+      (split; cbn; [try discriminate; intros X; contradiction|]); intros _; eauto.
+  - destruct (cleanup _ id rst') as [[s3 fr3] err3] eqn:Ec. inversion Eaw; subst; clear Eaw.
+    unfold cleanup in Ec. cbn [estd set_estd act] in Ec. rewrite aget_aupd_gen, Z.eqb_refl, Eg in Ec. cbn in Ec.
+    inversion Ec; subst; clear Ec. cbn. rewrite adel_aupd. apply forall_adel, H.
+Qed.
+
+Lemma handle_hd s o s' r : HDs s -> handle s o = (s', r) -> HDs s'.
+Proof.
+  unfold HDs. intros H E.
+  destruct o as [id inc|v order|sid v|id|id L ie|id es L rst|id h d es|id rst| |a| | |lasts]; cbn [handle] in E.
+  - destruct (id =? 0); [inversion E; subst; exact H|].
+    destruct (aget id (estd s)) as [str|] eqn:Eg; [|inversion E; subst; exact H].
+    pose proof (forall_get HD _ _ _ H Eg) as [Hd1 Hd2].
+    destruct ((strQuota s (i64 (bos str - inc)) >? 0) && (st str =? ST_WAITING)) eqn:Et;
+      inversion E; subst; clear E; cbn; (apply forall_aupd; [exact H|]); intros _ _ _.
+    + apply andb_true_iff in Et as [_ Ew]. apply Z.eqb_eq in Ew.
+      split; cbn; [discriminate|]. intros _. apply Hd2. rewrite Ew. discriminate.
+    + split; cbn; assumption.
+  - inversion E; subst; clear E. destruct (oiws s <? v); [|exact H].
+    apply (fold_activate_hd _ (mkSt (side s) (sq s) v (estd s) (act s) (draining s))). exact H.
+  - inversion E; subst; exact H.
+  - destruct (aget id (estd s)); inversion E; subst; [exact H|]. cbn.
+    apply Forall_app; split; [exact H|]. constructor; [apply hd_new|constructor].
+  - destruct (aget id (estd s)); [inversion E; subst; exact H|].
+    destruct (draining s); [inversion E; subst; exact H|]. destruct ie; inversion E; subst; [exact H|]. cbn.
+    apply Forall_app; split; [exact H|]. constructor; [apply hd_new|constructor].
+  - destruct (aget id (estd s)) as [str|] eqn:Eg; [|inversion E; subst; exact H].
+    destruct es; cbn [negb] in E; [|inversion E; subst; exact H].
+    destruct (Z.eqb_spec (st str) ST_EMPTY) as [Ee|Ne]; cbn [negb] in E.
+    + destruct (cleanup s id rst) as [[s1 fr] err] eqn:Ec. inversion E; subst. eapply cleanup_hd; eauto.
+    + inversion E; subst; clear E. cbn. apply forall_aupd; [exact H|]. intros v Hv [H1 H2].
+      rewrite Eg in Hv; inversion Hv; subst v. split; cbn; [intros X; contradiction|].
+      intros _. destruct (H2 Ne) as (h0 & d0 & e0 & t0 & Hi). rewrite Hi. cbn. eauto.
+  - destruct (aget id (estd s)) as [str|] eqn:Eg; [|inversion E; subst; exact H].
+    pose proof (forall_get HD _ _ _ H Eg) as [Hd1 Hd2].
+    destruct (Z.eqb_spec (st str) ST_EMPTY) as [Ee|Ne]; inversion E; subst; clear E; cbn;
+      (apply forall_aupd; [exact H|]); intros _ _ _.
+    + split; cbn; [discriminate|]. intros _. rewrite (Hd1 Ee). cbn. eauto.
+    + split; cbn; [intros X; contradiction|]. intros _. destruct (Hd2 Ne) as (h0 & d0 & e0 & t0 & Hi).
+      rewrite Hi. cbn. eauto.
+  - destruct (cleanup s id rst) as [[s1 fr] err] eqn:Ec. inversion E; subst. eapply cleanup_hd; eauto.
+  - destruct (side s =? 0); inversion E; subst; exact H.
+  - inversion E; subst; exact H.
+  - eapply processData_hd; eauto.
+  - inversion E; subst; exact H.
+  - inversion E; subst; exact H.
+Qed.
+
+(* ---------- clauses 22 / 23 on model traces ---------- *)
+Definition snap (P : sobs) (s : state) : Prop :=
+  o_sq P = sq s /\ o_oiws P = oiws s /\ o_act P = act s /\
+  o_strs P = map (fun q => (fst q, (st (snd q), bos (snd q), Z.of_nat (length (itl (snd q)))))) (estd s).
+
+Lemma snap_of r s : snap (sobs_of (r, s)) s.
+Proof. repeat split. Qed.
+Lemma snap_init sd : snap init_sobs (init sd).
+Proof. repeat split. Qed.
+
+Lemma aget_snap id (e : list (Z * stream)) :
+  aget id (map (fun q => (fst q, (st (snd q), bos (snd q), Z.of_nat (length (itl (snd q)))))) e) =
+  option_map (fun x => (st x, bos x, Z.of_nat (length (itl x)))) (aget id e).
+Proof. induction e as [|[k v] r IH]; cbn; [reflexivity|]. destruct (k =? id); [reflexivity|exact IH]. Qed.
+
+Lemma word_eqb_refl a : word_eqb a a = true.
+Proof. induction a as [|x a IH]; cbn; [reflexivity|]. rewrite Z.eqb_refl, IH. reflexivity. Qed.
+
+Lemma remove_id_notin id l : ~ In id l -> remove_id id l = l.
+Proof.
+  unfold remove_id. induction l as [|x l IH]; cbn; intros H; [reflexivity|].
+  destruct (Z.eqb_spec x id) as [->|N]; [exfalso; apply H; left; reflexivity|].
+  cbn. f_equal. apply IH. intros X; apply H; right; exact X.
+Qed.
+
+(* processData writes for the head whenever it has a data item and (non-wrapped) credit *)
+Lemma pd_writes s id rest str h d es tl :
+  sq s <> 0 -> act s = id :: rest -> aget id (estd s) = Some str -> itl str = IData h d es :: tl ->
+  0 < strQuota s (bos str) ->
+  exists len e fr, frames (snd (processData s)) = FData id len e true :: fr /\ r_empty (snd (processData s)) = false.
+Proof.
+  intros Hsq Hact Hg Hitl Hq. unfold processData.
+  destruct (Z.eqb_spec (sq s) 0); [contradiction|]. rewrite Hact. cbn [estd set_act]. rewrite Hg, Hitl.
+  replace (strQuota (set_act s rest) (bos str)) with (strQuota s (bos str)) by reflexivity.
+  destruct (Z.leb_spec (strQuota s (bos str)) 0); [lia|]. cbn [andb].
+  destruct (afterWrite _ _ _) as [[s2 fr2] err2]. cbn [snd frames r_empty]. eauto.
+Qed.
+
+Lemma pd_noquota s : sq s = 0 \/ act s = [] -> processData s = (s, mkR 0 true []).
+Proof.
+  intros [H|H]; unfold processData; [rewrite H; reflexivity|].
+  destruct (sq s =? 0); [reflexivity|]. rewrite H. reflexivity.
+Qed.
+
+Lemma c22_c23_model P s s' r : snap P s -> Inv3 s -> HDs s -> handle s OProcess = (s', r) ->
+  c22 P OProcess (sobs_of (r, s')) = true /\ c23 P OProcess (sobs_of (r, s')) = true.
+Proof.
+  intros (Hsq & Hoi & Hact & Hstr) (Ho & Hnd & HK & Hnda & Hacts) HH E. cbn [handle] in E.
+  unfold c22, c23. cbn [sobs_of o_code o_frames o_empty o_act].
+  destruct (executed (code r)); [|auto].
+  rewrite Hact, Hsq. destruct (act s) as [|id rest] eqn:Ea.
+  { rewrite pd_noquota in E by auto. inversion E; subst. rewrite Ea. auto. }
+  destruct (Z.eqb_spec (sq s) 0) as [Z0|NZ].
+  { rewrite pd_noquota in E by auto. inversion E; subst. rewrite Ea. split; [reflexivity|apply word_eqb_refl]. }
+  cbn [negb andb]. split.
+  - unfold credit. rewrite Hstr, aget_snap, Hoi.
+    destruct (Hacts id (or_introl eq_refl)) as (str & Hg & Hst). rewrite Hg. cbn [option_map].
+    destruct ((0 <? oiws s - bos str) && (neg62 <=? bos str)) eqn:Ec; [|reflexivity].
+    apply andb_true_iff in Ec as [C1 C2]. apply Z.ltb_lt in C1. apply Z.leb_le in C2.
+    pose proof (forall_get HD _ _ _ HH Hg) as [_ Hd2].
+    destruct (Hd2 ltac:(rewrite Hst; discriminate)) as (h & d & es & tl & Hitl).
+    assert (Hq : 0 < strQuota s (bos str)).
+    { unfold strQuota. rewrite i64_id; [lia|]. unfold min_i64, max_i64, neg62 in *. lia. }
+    destruct (pd_writes s id rest str h d es tl NZ Ea Hg Hitl Hq) as (len & e & fr & Hf & He).
+    rewrite E in Hf, He. cbn [snd] in Hf, He. rewrite Hf, He. cbn. rewrite Z.eqb_refl. reflexivity.
+  - pose proof (c03_round_robin s id rest Ea NZ) as Hrr. cbn zeta in Hrr. rewrite E in Hrr. cbn [fst] in Hrr.
+    inversion Hnda as [|? ? Hnin _]; subst.
+    rewrite (remove_id_notin id rest Hnin) in Hrr.
+    destruct Hrr as [->|[->| ->]]; rewrite word_eqb_refl; auto using orb_true_r.
+Qed.
+
+Lemma pd_nonempty s id rest : sq s <> 0 -> act s = id :: rest -> r_empty (snd (processData s)) = false.
+Proof.
+  intros Hsq Ha. unfold processData. destruct (Z.eqb_spec (sq s) 0); [contradiction|]. rewrite Ha. cbn [estd set_act].
+  destruct (aget id (estd s)) as [str|]; [|reflexivity]. destruct (itl str) as [|[h d es|L rst] tl]; try reflexivity.
+  destruct (_ && _); [reflexivity|]. destruct (afterWrite _ _ _) as [[s2 fr2] err2]. reflexivity.
+Qed.
+
+Lemma c24_model P s s' r : snap P s -> handle s OProcess = (s', r) -> c24 P OProcess (sobs_of (r, s')) = true.
+Proof.
+  intros (Hsq & _ & Hact & _) E. cbn [handle] in E. unfold c24. cbn [sobs_of o_code o_empty].
+  destruct (executed (code r)); [|reflexivity]. rewrite Hact, Hsq.
+  destruct (Z.eqb_spec (sq s) 0) as [Z0|NZ].
+  { rewrite pd_noquota in E by auto. inversion E; subst. reflexivity. }
+  destruct (act s) as [|id rest] eqn:Ea.
+  { rewrite pd_noquota in E by auto. inversion E; subst. reflexivity. }
+  pose proof (pd_nonempty s id rest NZ Ea) as H. rewrite E in H. cbn [snd] in H. rewrite H. reflexivity.
+Qed.
+
+Lemma c22_c23_other P o ob : o <> OProcess -> c22 P o ob = true /\ c23 P o ob = true.
+Proof. destruct o; try (split; reflexivity). intros H; contradiction. Qed.
+
+Lemma c03_run ops : forall s dead i P, forallb op_wf ops = true -> Inv3 s -> HDs s -> snap P s ->
+  all_ok (c03_from i P ops (map sobs_of (run_from s dead ops))) = true.
+Proof.
+  induction ops as [|o ops IH]; intros s dead i P Hwf HI HH HP; [reflexivity|].
+  cbn [forallb] in Hwf. apply andb_true_iff in Hwf as [Hw Hws].
+  cbn [run_from]. destruct dead.
+  - cbn [map c03_from all_ok forallb snd]. rewrite c03_obs_ok by exact HI.
+    assert (c22 P o (sobs_of (mkR 3 false [], s)) = true /\ c23 P o (sobs_of (mkR 3 false [], s)) = true) as [-> ->]
+      by (destruct o; split; reflexivity).
+    assert (c24 P o (sobs_of (mkR 3 false [], s)) = true) as -> by (destruct o; reflexivity).
+    cbn [andb]. apply IH; auto. apply snap_of.
+  - destruct (handle s o) as [s' r] eqn:Eh. cbn [map c03_from all_ok forallb snd].
+    pose proof (handle_inv3 _ _ _ _ Hw HI Eh) as HI'. pose proof (handle_hd _ _ _ _ HH Eh) as HH'.
+    rewrite c03_obs_ok by exact HI'.
+    assert (c22 P o (sobs_of (r, s')) = true /\ c23 P o (sobs_of (r, s')) = true) as [-> ->].
+    { destruct o; try (split; reflexivity). eapply c22_c23_model; eauto. }
+    assert (c24 P o (sobs_of (r, s')) = true) as ->.
+    { destruct o; try reflexivity. eapply c24_model; eauto. }
+    cbn [andb]. apply IH; auto. apply snap_of.
+Qed.
+
+Theorem c03_model sd ops : forallb op_wf ops = true -> all_ok (c03 ops (srun sd ops)) = true.
+Proof.
+  intros H. unfold c03, srun. apply c03_run; [exact H|apply init_inv3|constructor|apply snap_init].
+Qed.
+
+Theorem c03_bridge cfg ops : case_wf cfg ops = true ->
+  exists obs, run cfg ops = Some obs /\ holds_C03 ops obs = true.
+Proof.
+  unfold case_wf, run, holds_C03, clauses_C03, clauses_of.
+  destruct (cfg_side cfg) as [sd|]; [|discriminate].
+  destruct (dec_ops ops) as [os|]; [|discriminate]. intros Hwf.
+  eexists; split; [reflexivity|]. rewrite dec_enc_all. apply c03_model, Hwf.
+Qed.
+
+
+(* ================= C03: round-robin fairness over op lists (ranking) ================= *)
+(* streams queued ahead of id in activeStreams *)
+Fixpoint before (id : Z) (a : list Z) : list Z :=
+  match a with [] => [] | x :: r => if x =? id then [] else x :: before id r end.
+
+(* a processData call that serves (dequeues) the head: connection quota and a non-empty list *)
+Definition serving (s : state) (o : op) : bool :=
+  match o with
+  | OProcess => negb (sq s =? 0) && match act s with [] => false | _ => true end
+  | _ => false
+  end.
+(* items that remove stream id: cleanupStream, trailers *)
+Definition closes (id : Z) (o : op) : bool :=
+  match o with
+  | OCleanup j _ => j =? id
+  | OServerHeaders j true _ _ => j =? id
+  | _ => false
+  end.
+Fixpoint servings (s : state) (ops : list op) : nat :=
+  match ops with
+  | [] => O
+  | o :: r => ((if serving s o then 1 else 0) + servings (fst (handle s o)) r)%nat
+  end.
+(* the heads served strictly before the processData call that serves id, and whether that call happens *)
+Fixpoint service (id : Z) (s : state) (ops : list op) : list Z * bool :=
+  match ops with
+  | [] => ([], false)
+  | o :: r =>
+    if serving s o then
+      match act s with
+      | j :: _ => if j =? id then ([], true)
+                  else let '(hs, b) := service id (fst (handle s o)) r in (j :: hs, b)
+      | [] => ([], false)
+      end
+    else service id (fst (handle s o)) r
+  end.
+
+Lemma before_incl id a : incl (before id a) a.
+Proof.
+  induction a as [|x r IH]; cbn; [apply incl_refl|]. destruct (x =? id); [apply incl_nil_l|].
+  apply incl_cons; [left; reflexivity|]. apply incl_tl, IH.
+Qed.
+Lemma before_app id a x : In id a -> before id (a ++ x) = before id a.
+Proof.
+  induction a as [|y r IH]; cbn; [tauto|]. destruct (Z.eqb_spec y id); [reflexivity|].
+  intros [H|H]; [contradiction|]. rewrite IH; auto.
+Qed.
+Lemma before_remove_incl id j a : j <> id -> incl (before id (remove_id j a)) (before id a).
+Proof.
+  intros N. unfold remove_id. induction a as [|x r IH]; cbn; [apply incl_refl|].
+  destruct (Z.eqb_spec x j) as [->|Nx]; cbn.
+  - destruct (Z.eqb_spec j id); [contradiction|]. apply incl_tl, IH.
+  - destruct (x =? id); [apply incl_nil_l|]. apply incl_cons; [left; reflexivity|]. apply incl_tl, IH.
+Qed.
+Lemma nodup_before id a : NoDup a -> NoDup (before id a).
+Proof.
+  induction 1 as [|x r Hn Hnd IH]; cbn; [constructor|]. destruct (x =? id); constructor; [|exact IH].
+  intros H. apply Hn. apply (before_incl id r), H.
+Qed.
+
+Lemma fold_activate_act l : forall s, exists x, act (fold_left activate l s) = act s ++ x.
+Proof.
+  induction l as [|k l IH]; intros s; cbn [fold_left]; [exists []; rewrite app_nil_r; reflexivity|].
+  destruct (IH (activate s k)) as [x Hx]. rewrite Hx. unfold activate.
+  destruct (aget k (estd s)) as [v|]; [|eauto]. destruct (st v =? ST_WAITING); [|eauto].
+  cbn. rewrite <- app_assoc. eauto.
+Qed.
+
+(* how an item that is not a serving processData call changes activeStreams *)
+Lemma act_char s o : serving s o = false ->
+  (exists x, act (fst (handle s o)) = act s ++ x) \/
+  (exists j, closes j o = true /\ act (fst (handle s o)) = remove_id j (act s)).
+Proof.
+  intros Hns. assert (Hsame : forall s0 : state, act s0 = act s -> exists x, act s0 = act s ++ x)
+    by (intros s0 ->; exists []; rewrite app_nil_r; reflexivity).
+  destruct o as [id inc|v order|sid v|id|id L ie|id es L rst|id h d es|id rst| |a| | |lasts]; cbn [handle].
+  - left. destruct (id =? 0); [apply Hsame; reflexivity|]. destruct (aget id (estd s)); [|apply Hsame; reflexivity].
+    destruct (_ && _); cbn; [eauto|apply Hsame; reflexivity].
+  - left. cbn [fst]. destruct (oiws s <? v); [|apply Hsame; reflexivity].
+    destruct (fold_activate_act (order ++ map fst (estd s)) (mkSt (side s) (sq s) v (estd s) (act s) (draining s))) as [x Hx].
+    exists x. exact Hx.
+  - left. apply Hsame; reflexivity.
+  - left. destruct (aget id (estd s)); apply Hsame; reflexivity.
+  - left. destruct (aget id (estd s)); [apply Hsame; reflexivity|]. destruct (draining s); [apply Hsame; reflexivity|].
+    destruct ie; apply Hsame; reflexivity.
+  - destruct (aget id (estd s)) as [str|] eqn:Eg; [|left; apply Hsame; reflexivity].
+    destruct es; cbn [negb]; [|left; apply Hsame; reflexivity].
+    destruct (negb (st str =? ST_EMPTY)); [left; apply Hsame; reflexivity|].
+    unfold cleanup. rewrite Eg. cbn. right. exists id. rewrite Z.eqb_refl. auto.
+  - left. destruct (aget id (estd s)) as [str|]; [|apply Hsame; reflexivity].
+    destruct (st str =? ST_EMPTY); cbn; [eauto|apply Hsame; reflexivity].
+  - unfold cleanup. destruct (aget id (estd s)); cbn; [right; exists id; rewrite Z.eqb_refl; auto|left; apply Hsame; reflexivity].
+  - left. destruct (side s =? 0); apply Hsame; reflexivity.
+  - left. apply Hsame; reflexivity.
+  - left. cbn [serving] in Hns. rewrite pd_noquota; [apply Hsame; reflexivity|].
+    destruct (Z.eqb_spec (sq s) 0); [left; assumption|]. cbn in Hns. destruct (act s); [right; reflexivity|discriminate].
+  - left. apply Hsame; reflexivity.
+  - left. apply Hsame; reflexivity.
+Qed.
+
+Lemma step_other s o id : serving s o = false -> closes id o = false -> In id (act s) ->
+  In id (act (fst (handle s o))) /\ incl (before id (act (fst (handle s o)))) (before id (act s)).
+Proof.
+  intros Hns Hnc Hin. destruct (act_char s o Hns) as [[x ->]|(j & Hj & ->)].
+  - split; [apply in_or_app; left; exact Hin|]. rewrite before_app by exact Hin. apply incl_refl.
+  - assert (N : j <> id).
+    { intros ->. congruence. }
+    split; [apply remove_id_in; split; [exact Hin|congruence]|]. apply before_remove_incl, N.
+Qed.
+
+Lemma step_pd_other s id j rest : NoDup (act s) -> act s = j :: rest -> j <> id -> In id rest -> sq s <> 0 ->
+  In id (act (fst (handle s OProcess))) /\ before id (act (fst (handle s OProcess))) = before id rest.
+Proof.
+  intros Hnd Ha N Hin Hsq. cbn [handle]. pose proof (c03_round_robin s j rest Ha Hsq) as Hrr. cbn zeta in Hrr.
+  rewrite Ha in Hnd. inversion Hnd as [|? ? Hnin _]; subst. rewrite (remove_id_notin j rest Hnin) in Hrr.
+  destruct Hrr as [->|[->| ->]]; auto. split; [apply in_or_app; left; exact Hin|apply before_app, Hin].
+Qed.
+
+Lemma handle_pair s o : handle s o = (fst (handle s o), snd (handle s o)).
+Proof. destruct (handle s o); reflexivity. Qed.
+
+(* Fairness.  Let id be queued in activeStreams with k = length (before id (act s)) streams ahead
+   of it, and let ops be any well-formed item list of any length containing no item that closes
+   id.  Then the streams served by processData before id is served (hs) are pairwise distinct and
+   all were ahead of id at the start - so no stream is served twice while id waits, and at most k
+   services precede id's - and as soon as ops contains more than k serving processData calls, id
+   has been served: it is served by the (k+1)-th serving call at the latest. *)
+Theorem c03_fair ops : forall s id,
+  Inv3 s -> forallb op_wf ops = true -> forallb (fun o => negb (closes id o)) ops = true -> In id (act s) ->
+  NoDup (fst (service id s ops)) /\ incl (fst (service id s ops)) (before id (act s)) /\
+  ((length (before id (act s)) < servings s ops)%nat -> snd (service id s ops) = true).
+Proof.
+  induction ops as [|o ops IH]; intros s id HI Hwf Hnc Hin.
+  - cbn. split; [constructor|]. split; [apply incl_nil_l|]. lia.
+  - cbn [forallb] in Hwf, Hnc. apply andb_true_iff in Hwf as [Hw Hws]. apply andb_true_iff in Hnc as [Hc Hcs].
+    apply negb_true_iff in Hc.
+    pose proof (handle_inv3 s o _ _ Hw HI (handle_pair s o)) as HI'.
+    pose proof HI as (_ & _ & _ & Hnd & _).
+    cbn [service servings]. destruct (serving s o) eqn:Es.
+    + destruct o; try discriminate Es. cbn [serving] in Es. apply andb_true_iff in Es as [Hsq Hne].
+      apply negb_true_iff in Hsq. apply Z.eqb_neq in Hsq.
+      destruct (act s) as [|j rest] eqn:Ea; [discriminate|]. cbn [before].
+      destruct (Z.eqb_spec j id) as [->|N].
+      * cbn. split; [constructor|]. split; [apply incl_nil_l|]. reflexivity.
+      * assert (Hin' : In id rest) by (destruct Hin; [contradiction|assumption]).
+        rewrite <- Ea in Hnd.
+        destruct (step_pd_other s id j rest Hnd Ea N Hin' Hsq) as [Hin2 Hb].
+        destruct (IH _ id HI' Hws Hcs Hin2) as (H1 & H2 & H3). rewrite Hb in H2, H3.
+        destruct (service id (fst (handle s OProcess)) ops) as [hs b]. cbn [fst snd] in *.
+        rewrite Ea in Hnd. pose proof (nodup_before id _ Hnd) as HndB. cbn [before] in HndB.
+        destruct (Z.eqb_spec j id); [contradiction|]. inversion HndB as [|? ? Hjn _]; subst.
+        split; [constructor; [intros X; apply Hjn, H2, X|exact H1]|].
+        split; [apply incl_cons; [left; reflexivity|apply incl_tl, H2]|].
+        intros Hlt. apply H3. cbn [length] in Hlt. lia.
+    + destruct (step_other s o id Es Hc Hin) as [Hin2 Hb].
+      destruct (IH _ id HI' Hws Hcs Hin2) as (H1 & H2 & H3).
+      split; [exact H1|]. split; [eapply incl_tran; eauto|].
+      intros Hlt. apply H3. cbn in Hlt.
+      assert ((length (before id (act (fst (handle s o)))) <= length (before id (act s)))%nat).
+      { apply NoDup_incl_length; [|exact Hb]. apply nodup_before. apply HI'. }
+      lia.
+Qed.
+
+(* the same from any reachable state *)
+Corollary c03_fair_reachable sd pre ops id :
+  forallb op_wf pre = true -> forallb op_wf ops = true ->
+  forallb (fun o => negb (closes id o)) ops = true ->
+  let s := final (init sd) false pre in
+  In id (act s) ->
+  NoDup (fst (service id s ops)) /\ incl (fst (service id s ops)) (before id (act s)) /\
+  ((length (before id (act s)) < servings s ops)%nat -> snd (service id s ops) = true).
+Proof. intros Hp Ho Hc s Hin. apply c03_fair; auto. apply final_inv3; [exact Hp|apply init_inv3]. Qed.
